@@ -64,6 +64,13 @@ type rule struct {
 	DropParam string `json:"dropParam,omitempty"`
 	// DropRev2 (resources mode): revision 2 of the Composition no longer has this template.
 	DropRev2 bool `json:"dropRev2,omitempty"`
+	// Namespace of the composed resource ("" = cluster scoped). Two pipeline rules of one kind may share the
+	// fixed name "fixed-same" in different namespaces.
+	Namespace string `json:"namespace,omitempty"`
+	// StaleAnn: the desired resource / template base already carries a crossplane.io/composition-resource-name
+	// annotation naming ANOTHER resource of the composition (a pasted exported manifest, a function cloning an
+	// observed sibling). Rendering overwrites it.
+	StaleAnn string `json:"staleAnn,omitempty"`
 }
 
 type scenario struct {
@@ -99,14 +106,27 @@ func genScenario() *rapid.Generator[scenario] {
 		}
 		for i := 0; i < n; i++ {
 			r := rule{Name: fmt.Sprintf("r%d", i), Kind: rapid.SampledFrom([]string{"KindA", "KindB"}).Draw(t, "kind"), Val: rapid.SampledFrom([]string{"x", "y", "z"}).Draw(t, "val")}
+			r.Namespace = rapid.SampledFrom([]string{"", "", "ns-a", "ns-b"}).Draw(t, "namespace")
+			if n > 1 && rapid.IntRange(0, 3).Draw(t, "staleann") == 0 {
+				r.StaleAnn = fmt.Sprintf("r%d", (i+1+rapid.IntRange(0, n-2).Draw(t, "staleannof"))%n)
+			}
 			if sc.Pipeline {
 				r.Step = rapid.IntRange(0, sc.Steps-1).Draw(t, "step")
 				if i > 0 {
 					r.When = cond(rapid.IntRange(0, 2).Draw(t, "when"))
 					r.Other = fmt.Sprintf("r%d", rapid.IntRange(0, i-1).Draw(t, "other"))
 				}
-				if rapid.IntRange(0, 4).Draw(t, "fixed") == 0 {
+				if rapid.IntRange(0, 3).Draw(t, "fixed") == 0 {
 					r.FixedName = fmt.Sprintf("fixed-%d", i)
+					if r.Namespace != "" {
+						// same name as a sibling's, in another namespace
+						r.FixedName = "fixed-same"
+						for _, o := range sc.Rules {
+							if o.FixedName == r.FixedName && o.Kind == r.Kind && o.Namespace == r.Namespace {
+								r.FixedName = fmt.Sprintf("fixed-%d", i)
+							}
+						}
+					}
 				}
 				if rapid.Bool().Draw(t, "drops") {
 					r.DropParam = fmt.Sprintf("p%d", rapid.IntRange(0, 2).Draw(t, "dropparam"))
@@ -195,6 +215,12 @@ func (sc scenario) runner() composite.FunctionRunner {
 			if r.FixedName != "" {
 				md["name"] = r.FixedName
 			}
+			if r.Namespace != "" {
+				md["namespace"] = r.Namespace
+			}
+			if r.StaleAnn != "" {
+				md["annotations"] = map[string]any{annName: r.StaleAnn}
+			}
 			s, err := structpb.NewStruct(map[string]any{
 				"apiVersion": "example.org/v1", "kind": r.Kind, "metadata": md,
 				"spec": map[string]any{"forProvider": map[string]any{"v": r.Val}},
@@ -241,7 +267,18 @@ func (sc scenario) compositionRev(rev int) *v1.Composition {
 		if rev >= 2 && r.DropRev2 {
 			continue
 		}
-		base, _ := json.Marshal(map[string]any{"apiVersion": "example.org/v1", "kind": r.Kind, "spec": map[string]any{"forProvider": map[string]any{"v": r.Val}}})
+		bm := map[string]any{"apiVersion": "example.org/v1", "kind": r.Kind, "spec": map[string]any{"forProvider": map[string]any{"v": r.Val}}}
+		md := map[string]any{}
+		if r.Namespace != "" {
+			md["namespace"] = r.Namespace
+		}
+		if r.StaleAnn != "" {
+			md["annotations"] = map[string]any{annName: r.StaleAnn}
+		}
+		if len(md) > 0 {
+			bm["metadata"] = md
+		}
+		base, _ := json.Marshal(bm)
 		ct := v1.ComposedTemplate{Name: ptr.To(r.Name), Base: runtime.RawExtension{Raw: base}}
 		if r.Param != "" {
 			pol := v1.FromFieldPathPolicyOptional
@@ -305,7 +342,7 @@ func (w *world) monitor(v *verifsim.View, wr *verifsim.Write) {
 			if w.created[n] == nil {
 				w.created[n] = map[string]bool{}
 			}
-			w.created[n][wr.Key.Kind+"/"+wr.Key.Name] = true
+			w.created[n][wr.Key.Kind+"/"+wr.Key.Namespace+"/"+wr.Key.Name] = true
 			if len(w.created[n]) > 1 {
 				v.Violate("I2 duplicate: desired resource %q has been created under more than one name: %v (write #%d by %s)", n, keys(w.created[n]), wr.Seq, wr.Actor)
 			}
@@ -319,7 +356,8 @@ func (w *world) monitor(v *verifsim.View, wr *verifsim.Write) {
 	if l, ok := verifsim.Nested(xr, "spec", "resourceRefs").([]any); ok {
 		for _, e := range l {
 			if m, ok := e.(map[string]any); ok {
-				refs[fmt.Sprint(m["kind"])+"/"+fmt.Sprint(m["name"])] = true
+				ns, _ := m["namespace"].(string)
+				refs[fmt.Sprint(m["kind"])+"/"+ns+"/"+fmt.Sprint(m["name"])] = true
 			}
 		}
 	}
@@ -328,7 +366,7 @@ func (w *world) monitor(v *verifsim.View, wr *verifsim.Write) {
 		if verifsim.ControllerUID(o) != w.xrUID || verifsim.Annotations(o)[annName] == "" {
 			continue
 		}
-		if !refs[k.Kind+"/"+k.Name] {
+		if !refs[k.Kind+"/"+k.Namespace+"/"+k.Name] {
 			v.Violate("I1 leak: live composed resource %s (resource name %q) is controlled by the XR but not listed in its stored spec.resourceRefs %v (after write #%d %s %s by %s)", k, verifsim.Annotations(o)[annName], keys(refs), wr.Seq, wr.Verb, wr.Key, wr.Actor)
 		}
 	}
@@ -650,6 +688,25 @@ func TestVerifC01Histories(t *testing.T) {
 			rec.NonTrivial(verifkit.JSON(sc)+strings.Join(hist, ";"), func() any { return map[string]any{"scenario": sc, "history": hist} })
 		}
 	})
+}
+
+// TestVerifC01Pinned: shrunk failures found by this check, replayed without rapid.
+func TestVerifC01Pinned(t *testing.T) {
+	rec := verifkit.New(t, "C01", "pinned regression scenarios")
+	// refs-order-ignores-namespace (fixed by 369fba9): two desired resources of one kind and name in different
+	// namespaces compared equal in UpdateResourceRefs' sort, so spec.resourceRefs was rewritten in map order.
+	sc := scenario{Pipeline: true, Steps: 1, Seed: 7, Params: map[string]string{}, Rules: []rule{
+		{Name: "r0", Kind: "KindA", Val: "x", FixedName: "fixed-same", Namespace: "ns-a"},
+		{Name: "r1", Kind: "KindA", Val: "y", FixedName: "fixed-same", Namespace: "ns-b"},
+		{Name: "r2", Kind: "KindA", Val: "z", FixedName: "fixed-same", Namespace: "ns-c"},
+	}}
+	rec.Eval()
+	w := newWorld(sc, func(f string, a ...any) { t.Fatalf("refs-order-ignores-namespace: "+f, a...) })
+	w.quiesceN("pinned", 24)
+	if !w.xrSynced() {
+		t.Fatalf("refs-order-ignores-namespace: the XR never became Synced, the row is vacuous")
+	}
+	rec.NonTrivial("refs-order-ignores-namespace", func() any { return sc })
 }
 
 // TestVerifC01SimSanity guards against a vacuously quiet harness: the scenario really composes resources.
